@@ -96,8 +96,8 @@ Proof.
       * apply Forall_upd; auto. split; [exact RS|]. simpl.
         destruct AD as [[_ ->]|[_ ->]]; auto.
       * lia.
-      * intros. split; auto. destruct AD as [[A1 A2]|[A1 A2]]; rewrite A2 in E2; simpl in E2; lia.
-      * intros. destruct AD as [[A1 A2]|[A1 A2]]; rewrite A2 in E2; simpl in E2; lia.
+      * intros. split; auto. destruct AD as [[A1 A2]|[A1 A2]]; rewrite A2 in *; simpl in *; lia.
+      * intros. destruct AD as [[A1 A2]|[A1 A2]]; rewrite A2 in *; simpl in *; lia.
   - (* HashChecked *)
     destruct K as [K1 K2].
     assert (TL : 1 <= list_sum (map held (threads s))) by lia.
